@@ -53,6 +53,7 @@ static void display_hook(rfbClientPtr cl) {
   if (c) printf(" cur=%d,%d,%d,%d,%d", c->xhot, c->yhot, c->width, c->height,
                 (c->width == 1 && c->height == 1 && c->mask && c->mask[0] == 0) ? 1 : 0);
   else printf(" cur=none");
+  printf(" rdsc=%d dse=%d", cl->requestedDesktopSizeChange, cl->lastDesktopSizeChangeError);
   printf(" bpp=%d led=%d fbw=%d fbh=%d maxrects=%d cmw=%d cmh=%d nscr=%d scaled=%d\n", cl->format.bitsPerPixel, ledval,
          cl->scaledScreen->width, cl->scaledScreen->height, cl->screen->maxRectsPerUpdate,
          cl->correMaxWidth, cl->correMaxHeight, cl->screen->numberOfExtDesktopScreensHook(cl),
@@ -66,6 +67,15 @@ static enum rfbNewClientAction new_client(rfbClientPtr cl) { cl->clientGoneHook 
 static int led_hook(rfbScreenInfoPtr s) { return ledval; }
 static rfbBool xvp_hook(rfbClientPtr cl, uint8_t v, uint8_t c) { return TRUE; }
 static void utf8_hook(char *s, int n, rfbClientPtr cl) {}
+/* the application's answer to SetDesktopSize: scripted result; the new size is installed afterwards */
+static int sds_result, sds_called, sds_w, sds_h;
+static int sds_hook(int w, int h, int n, rfbExtDesktopScreen *scr, rfbClientPtr cl) { sds_called = 1; sds_w = w; sds_h = h; return sds_result; }
+static void install_fb(int w, int h) {
+  char *nfb = calloc((size_t)w * h + 16, fbBypp), *old = fb;
+  int bps = fbBypp == 1 ? 2 : (fbBypp == 2 ? 5 : 8);
+  rfbNewFramebuffer(S, nfb, w, h, bps, 3, fbBypp);
+  fb = nfb; fbW = w; fbH = h; free(old);
+}
 
 static void hex(const char *tag, vs_buf *b) {
   size_t i;
@@ -217,6 +227,7 @@ int main(void) {
       if (kv(line, "xvp", 0)) S->xvpHook = xvp_hook;
       if (kv(line, "utf8", 0)) S->setXCutTextUTF8 = utf8_hook;
       if (kv(line, "ledhook", 0)) S->getKeyboardLedStateHook = led_hook;
+      S->setDesktopSizeHook = sds_hook;
       S->displayHook = display_hook;
       S->newClientHook = new_client;
       rfbInitServer(S);
@@ -293,10 +304,23 @@ int main(void) {
     } else if (!strcmp(op, "cuttextutf8")) {
       char *t = malloc(a[0] + 1); memset(t, 'u', a[0]); t[a[0]] = 0; rfbSendServerCutTextUTF8(S, t, (int)a[0], t, (int)a[0]); free(t);
     } else if (!strcmp(op, "newfb")) {
-      char *nfb = calloc((size_t)a[0] * a[1] + 16, fbBypp), *old = fb;
-      int bps = fbBypp == 1 ? 2 : (fbBypp == 2 ? 5 : 8);
-      rfbNewFramebuffer(S, nfb, (int)a[0], (int)a[1], bps, 3, fbBypp);
-      fb = nfb; fbW = (int)a[0]; fbH = (int)a[1]; free(old);
+      install_fb((int)a[0], (int)a[1]);
+    } else if (!strcmp(op, "helperenc")) {     /* SetEncodings sent by the helper client B */
+      int32_t encs[256]; int k = 0; char *p = line + 9, *e;
+      while (k < 256) { long long v = strtoll(p, &e, 10); if (e == p) break; encs[k++] = (int32_t)(uint32_t)v; p = e; }
+      { unsigned char *m = malloc(4 + 4 * k); m[0] = 2; m[1] = 0; vs_put16(m + 2, k);
+        for (i = 0; i < k; i++) vs_put32(m + 4 + 4 * i, (uint32_t)encs[i]);
+        if (peerB >= 0) vs_write(peerB, m, 4 + 4 * k); free(m); }
+    } else if (!strcmp(op, "sds")) {           /* sds WHO(0=A,1=B) W H OK: SetDesktopSize; the application accepts (and then
+                                                  installs the new framebuffer) or refuses */
+      unsigned char m[24]; int fd = a[0] ? peerB : peerA;
+      memset(m, 0, sizeof m); m[0] = 251; vs_put16(m + 2, a[1]); vs_put16(m + 4, a[2]); m[6] = 1;
+      vs_put32(m + 8, 1); vs_put16(m + 16, a[1]); vs_put16(m + 18, a[2]);
+      sds_result = a[3] ? rfbExtDesktopSize_Success : rfbExtDesktopSize_ResizeProhibited; sds_called = 0;
+      if (fd >= 0) vs_write(fd, m, 24);
+      pump();
+      printf("sdscalled %d\n", sds_called);
+      if (sds_called && a[3]) install_fb(sds_w, sds_h);
     } else if (!strcmp(op, "setscale")) {
       unsigned char m[4]; m[0] = 8; m[1] = (unsigned char)a[0]; m[2] = m[3] = 0;
       if (peerA >= 0) vs_write(peerA, m, 4);
@@ -320,6 +344,16 @@ int main(void) {
       rfbMarkRegionAsModified(S, row);
       printf("modgrid rects=%lu\n", sraRgnCountRects(row));
       sraRgnDestroy(row);
+    } else if (!strcmp(op, "copygrid")) {    /* copygrid NX NY DX DY: the application schedules a copy of NX*NY one-pixel
+                                                rectangles at even coordinates (rfbScheduleCopyRegion with a fragmented region) */
+      sraRegionPtr r = sraRgnCreateRect(0, 0, 1, 1); int k;
+      for (k = 1; k < a[0]; k *= 2) { sraRegionPtr c = sraRgnCreateRgn(r); sraRgnOffset(c, 2 * k, 0); sraRgnOr(r, c); sraRgnDestroy(c); }
+      { sraRegionPtr clip = sraRgnCreateRect(0, 0, 2 * a[0] - 1, 1); sraRgnAnd(r, clip); sraRgnDestroy(clip); }
+      for (k = 1; k < a[1]; k *= 2) { sraRegionPtr c = sraRgnCreateRgn(r); sraRgnOffset(c, 0, 2 * k); sraRgnOr(r, c); sraRgnDestroy(c); }
+      { sraRegionPtr clip = sraRgnCreateRect(0, 0, 2 * a[0] - 1, 2 * a[1] - 1); sraRgnAnd(r, clip); sraRgnDestroy(clip); }
+      printf("copygrid rects=%lu\n", sraRgnCountRects(r));
+      rfbScheduleCopyRegion(S, r, (int)a[2], (int)a[3]);
+      sraRgnDestroy(r);
     } else if (!strcmp(op, "copyall")) {
       sraRegionPtr r = sraRgnCreateRect(0, 0, S->width, S->height);
       rfbScheduleCopyRegion(S, r, (int)a[0], (int)a[1]);
